@@ -487,6 +487,9 @@ def path_set(specs, extra=None):
         add("/" + b)
         add("/" + b + "/")
         segs = b.split("/")[1:]
+        # a line feed at the end of a segment: "$" and "\\Z" differ exactly there, "." stops matching there
+        for j in range(len(segs)):
+            add("/" + "/".join(segs[:j] + [segs[j] + "\n"] + segs[j + 1:]))
         for cut in range(1, len(segs)):
             head, tail = "/" + "/".join(segs[:cut]), "/".join(segs[cut:])
             add(head + "//" + tail)
